@@ -12,7 +12,7 @@ import z3
 from contracts.common import *  # noqa
 from contracts import common, symbols_c, deferred_c, c05
 from contracts.symbols_c import *  # noqa
-from contracts.deferred_c import unit_wait, unit_construct  # noqa
+from contracts.deferred_c import *  # noqa
 from contracts.c05 import unit_resolve as unit_operator_resolve  # noqa
 from pyvc import driver
 
@@ -100,6 +100,11 @@ def units(tier):
     for n in ("add", "sub", "mul", "div", "lshift", "and_"):
         for lz in itertools.product((False, True), repeat=2):
             us.append(("operator-resolve[%s,%s]" % (n, lz), "unit_operator_resolve", dict(name=n, lz=lz)))
+    # the arithmetic a forward reference goes through while its operands are still unknown: LinearPolynomial's view is preserved by every
+    # operation and by the re-simplification in _wait (so the early, structural value and the final value agree whatever the order)
+    for name, fn, kw in deferred_c.all_units():
+        if name.startswith("poly"):
+            us.append((name, fn, kw))
     return us
 
 
@@ -112,6 +117,10 @@ def canary(eng):
 
 def replay(o, tree):
     import os
+    if (o.get("cfg") or {}).get("kind") == "poly-nested":
+        return deferred_c.replay_poly_nested(o["cfg"], o.get("witness") or {}, tree)
+    if (o.get("cfg") or {}).get("kind") == "poly-selfref":
+        return deferred_c.replay_poly_selfref(o["cfg"], o.get("witness") or {}, tree)
     old = os.environ.get("PDPY11_SRC")
     os.environ["PDPY11_SRC"] = tree
     try:
